@@ -44,6 +44,8 @@ type KFSpec struct {
 type Contract struct {
 	Key      string // fully qualified function name (types.Func.FullName form)
 	Short    string
+	IsLemma  bool
+	LParams  []SpecParam // lemma parameters
 	Pkg      string
 	File     string
 	Line     int
@@ -328,6 +330,28 @@ func (cs *ContractSet) loadContractFile(path, pkgPath string) error {
 				return fmt.Errorf("%s:%d: duplicate contract for %s", path, rl.line, key)
 			}
 			cs.Funcs[key] = cur
+			continue
+		case "lemma":
+			if err := flush(); err != nil {
+				return err
+			}
+			key := "lemma:" + rest
+			cur = &Contract{Key: key, Short: "lemma." + rest, Pkg: pkgPath, File: path, Line: rl.line,
+				Opts: map[string]string{}, Loops: map[int]*LoopSpec{}, IsLemma: true}
+			if _, dup := cs.Funcs[key]; dup {
+				return fmt.Errorf("%s:%d: duplicate lemma %s", path, rl.line, rest)
+			}
+			cs.Funcs[key] = cur
+			continue
+		case "param":
+			if err := flush(); err != nil {
+				return err
+			}
+			fs := strings.Fields(rest)
+			if cur == nil || !cur.IsLemma || len(fs) != 2 {
+				return fmt.Errorf("%s:%d: param wants `name type` inside a lemma", path, rl.line)
+			}
+			cur.LParams = append(cur.LParams, SpecParam{fs[0], fs[1]})
 			continue
 		case "end":
 			if err := flush(); err != nil {
